@@ -1823,6 +1823,9 @@ class CxxParser:
             if concept_ok and self.lex.token_if("auto"):
                 at_type = Type(parsed_type.typename)
                 parsed_type.typename = PQName([AutoSpecifier()])
+            elif concept_ok and parsed_type.typename.segments == [AutoSpecifier()]:
+                # cv-qualifiers written before the placeholder: const auto& x
+                at_type = Type(PQName([AutoSpecifier()]))
 
         dtype = self._parse_cv_ptr(parsed_type)
 
